@@ -17,18 +17,31 @@ fn main() {
     // the subject refuses to start commands' children when this is set; commands must not see a stale one
     std::env::remove_var("TXTPP_FILE");
     std::env::set_var("LC_ALL", "C");
+    let replay_path = std::fs::canonicalize(&args[1]).unwrap_or_else(|_| args[1].clone().into());
     std::env::set_current_dir("/").expect("chdir /");
-    std::panic::set_hook(Box::new(|_| {})); // panics are caught and reported by the engines
+    // panics of the subject are caught and reported by the engines; keep the text for diagnostics
+    std::panic::set_hook(Box::new(|info| {
+        let mut l = util::PANIC_LOG.lock().unwrap_or_else(|e| e.into_inner());
+        if l.len() < 50 {
+            l.push(format!("[{}] {}", std::thread::current().name().unwrap_or("?"), info));
+        }
+    }));
     let code = if args[0] == "replay" {
         ctl::start_watchdog(Duration::from_secs(60));
-        let text = std::fs::read_to_string(&args[1]).expect("read replay file");
+        let text = std::fs::read_to_string(&replay_path).expect("read replay file");
         let v: serde_json::Value = serde_json::from_str(&text).expect("parse replay file");
         let prop = v["property"].as_str().unwrap_or("").to_string();
         let still = dispatch_replay(&prop, &v["replay"]);
         println!("{}", if still { "REPRODUCED" } else { "not reproduced" });
         if still { 1 } else { 0 }
     } else {
-        dispatch(&args[0], &args[1])
+        match std::panic::catch_unwind(|| dispatch(&args[0], &args[1])) {
+            Ok(c) => c,
+            Err(_) => {
+                eprintln!("MACHINERY-ERROR: the harness panicked: {:?}", util::PANIC_LOG.lock().map(|l| l.clone()).unwrap_or_default());
+                2
+            }
+        }
     };
     util::cleanup_scratch_root();
     std::process::exit(code);
